@@ -49,9 +49,32 @@ fn verdict<T: PartialEq>(orig: &T, back: Result<Result<T, String>, String>, on: 
         }
     }
 }
+/// a reader that hands out the bytes in short reads of at most `chunk` bytes (like a pipe, a socket or a buffered file)
+struct ChunkReader<'a> {
+    data: &'a [u8],
+    chunk: usize,
+}
+impl<'a> borsh::io::Read for ChunkReader<'a> {
+    fn read(&mut self, buf: &mut [u8]) -> borsh::io::Result<usize> {
+        let n = buf.len().min(self.chunk).min(self.data.len());
+        buf[..n].copy_from_slice(&self.data[..n]);
+        self.data = &self.data[n..];
+        Ok(n)
+    }
+}
 fn trip<T: BorshSerialize + BorshDeserialize>(v: &T) -> Result<T, String> {
     let b = borsh::to_vec(v).map_err(|e| format!("serialize: {e}"))?;
-    borsh::from_slice::<T>(&b).map_err(|e| format!("deserialize: {e}"))
+    let direct = borsh::from_slice::<T>(&b).map_err(|e| format!("deserialize (from_slice): {e}"))?;
+    // the same bytes through readers that return short reads: every one must decode to the same encoding again
+    for chunk in [1usize, 7, 100, 8192] {
+        let mut r = ChunkReader { data: &b, chunk };
+        let again = T::deserialize_reader(&mut r).map_err(|e| format!("deserialize_reader with reads of at most {chunk} bytes: {e}"))?;
+        let b2 = borsh::to_vec(&again).map_err(|e| format!("re-serialize: {e}"))?;
+        if b2 != b {
+            return Err(format!("deserialize_reader with reads of at most {chunk} bytes decodes a different value"));
+        }
+    }
+    Ok(direct)
 }
 fn form_case<T: Nums + BorshSerialize + BorshDeserialize + PartialEq + 'static>(ty: String) -> Case {
     Case { ty, n: T::N, run: Box::new(|nums| { let v = T::from_nums(nums); let r = guard(|| trip(&v)); verdict(&v, r, nums, |b| b.nums()) }) }
@@ -179,7 +202,7 @@ fn main() {
     }
     if samples.is_empty() { samples.push(json!({"type": cs[0].ty, "numbers": fjs(&inputs(cs[0].n, false)[0])})); }
     let part = json!({
-        "engine": "exhaustive enumeration of number contents per serializable type, subject built with feature borsh; borsh::to_vec / from_slice",
+        "engine": "exhaustive enumeration of number contents per serializable type, subject built with feature borsh; borsh::to_vec / from_slice, and deserialize_reader through readers returning short reads (1, 7, 100, 8192 bytes)",
         "states": states, "transitions": states - 1, "traces_validated_against_impl": execs, "evaluations": execs, "distinct_nontrivial": nontrivial,
         "types": cs.iter().map(|c| c.ty.clone()).collect::<Vec<_>>(), "exhaustive": violation.is_none(),
         "bounds": "same number alphabet (incl. +-inf and f32/f16-exact doubles), positions sweeps and cubes as the serde phase; 0..4 segments; plus 33..70000 segments for every Piecewise type",
